@@ -854,6 +854,17 @@ func (x *Exec) specBinary(c *SpecCtx, e *Expr) (*Val, error) {
 			}
 		} else if a.K == VScalar && b.K == VScalar {
 			p, q := x.numUnify(a.T, b.T)
+			if p.S != q.S && (p.S == SAny || q.S == SAny) {
+				// an interface value compared with a concrete scalar: the scalar is boxed as its Go type
+				// (the same injective box.<type> function MakeInterface uses)
+				if p.S == SAny {
+					if bx, ok := x.boxForSpec(b, q); ok {
+						q = bx
+					}
+				} else if bx, ok := x.boxForSpec(a, p); ok {
+					p = bx
+				}
+			}
 			if p.S != q.S {
 				if strings.HasPrefix(e.Args[0].Name, "vararg") || strings.HasPrefix(e.Args[1].Name, "vararg") {
 					// variadic arguments have a different type at each call site a clause applies to: values of
@@ -1037,4 +1048,28 @@ func inferPatterns(bound []*Term, body *Term) [][]*Term {
 		multi = append(multi, cands[b.Op][0])
 	}
 	return [][]*Term{multi}
+}
+
+// boxForSpec boxes a concrete scalar of a spec expression into an interface value.
+func (x *Exec) boxForSpec(v *Val, t *Term) (*Term, bool) {
+	var gt types.Type = v.Typ
+	if gt == nil {
+		switch t.S {
+		case SStr:
+			gt = types.Typ[types.String]
+		case SInt:
+			gt = types.Typ[types.Int]
+		case SBool:
+			gt = types.Typ[types.Bool]
+		default:
+			return nil, false
+		}
+	}
+	if b, ok := gt.(*types.Basic); ok && b.Info()&types.IsUntyped != 0 {
+		gt = types.Default(gt)
+	}
+	if k, _ := classify(gt); k != TScalar {
+		return nil, false
+	}
+	return x.ufApp("box."+typeKey(gt), SAny, t), true
 }
